@@ -1,6 +1,11 @@
-import LhasaV.Spec.HeaderEnc
+import LhasaV.Lemmas.HeaderRT
 /-!
 # C05 — every well-formed level 0–3 header is returned with exactly its encoded fields
+
+`Spec.HeaderEnc.encode` lays typed fields out as a level 0, 1, 2 or 3 header; `typed` is the header
+those fields denote and `normalise = Header.postProcess ∘ typed` what the caller must receive
+(separator normalisation, all-caps folding, symlink split, OS-9 permission mapping, LHark renaming,
+common-CRC verification). `Header.read` is the model of `lha_file_header_read`.
 -/
 namespace LhasaV.Props.C05
 open LhasaV LhasaV.Header LhasaV.Spec.HeaderEnc
@@ -13,8 +18,61 @@ theorem layout_matches_source :
     Gen.flagUnixPerms = 1 ∧ Gen.flagUnixUidGid = 2 ∧ Gen.flagCommonCrc = 4 ∧ Gen.flagWindowsTimestamps = 8 ∧
     Gen.flagOs9Perms = 16 ∧ Gen.commonHeaderLen = 22 ∧ Gen.level0MinHeaderLen = 22 ∧ Gen.level1MinHeaderLen = 25 ∧
     Gen.level2HeaderLen = 26 ∧ Gen.level3HeaderLen = 32 ∧ Gen.level3MaxHeaderLen = 1048576 ∧
-    Gen.level0UnixExtendedLen = 12 ∧ Gen.level0Os9ExtendedLen = 22 := by
-  refine ⟨?_, by decide⟩
-  decide +kernel
+    Gen.level0UnixExtendedLen = 12 ∧ Gen.level0Os9ExtendedLen = 22 :=
+  HeaderLayout.layout_matches_source
+
+/-- **C05, full statement.** For EVERY well-formed typed field assignment of level 0, 1, 2 or 3 —
+any values, any list of typed extended headers in any order with duplicates, unknown and too-short
+ones, common-CRC headers anywhere, level-0 Unix/OS-9/unrecognised areas, level-1 padding — any
+`mktime`, and any following member data: the parser returns exactly the header the fields denote
+(every field, the raw bytes with the CRC fields zeroed, the level-1 compressed size with the chain
+subtracted) and leaves exactly the member data; where the normalisation stage rejects the fields
+(a file without a name, a directory without a path) so does the parser. -/
+theorem header_roundtrip (mk : Nat → Nat) (f : Fields) (hwf : wf f = true) (data : Bytes) :
+    Header.read mk (encode f ++ data) = (normalise mk f).bind (fun h => .ok (h, data)) :=
+  HeaderRT.header_roundtrip mk f hwf data
+
+/-- accepted fields: the header comes back and the member data is found right after it -/
+theorem header_roundtrip_ok (mk : Nat → Nat) (f : Fields) (hwf : wf f = true) (data : Bytes) (h : Hdr)
+    (hn : normalise mk f = .ok h) : Header.read mk (encode f ++ data) = .ok (h, data) := by
+  rw [header_roundtrip mk f hwf data, hn]; rfl
+
+theorem splitFilename_clen (h : Hdr) : (splitFilename h).compressedLength = h.compressedLength := by
+  unfold splitFilename
+  split
+  · rfl
+  · split <;> rfl
+
+theorem applyArea_clen (h : Hdr) (a : Area) : (applyArea h a).compressedLength = h.compressedLength := by
+  cases a <;> rfl
+
+theorem applyExt_clen (c : Nat) (h : Hdr) (e : Ext) : (applyExt c h e).compressedLength = h.compressedLength := by
+  cases e <;> rfl
+
+theorem foldl_applyExt_clen (c : Nat) (es : List Ext) (h : Hdr) :
+    (es.foldl (applyExt c) h).compressedLength = h.compressedLength := by
+  induction es generalizing h with
+  | nil => rfl
+  | cons e es ih => simp only [List.foldl_cons]; rw [ih, applyExt_clen]
+
+/-- the level-1 clause: the compressed size handed to the caller is the member's own size, the
+extended-header bytes that the length field also counts having been subtracted (for every level,
+whatever the extended headers are) -/
+theorem level1_compressed_size (mk : Nat → Nat) (f : Fields) : (typed mk f).compressedLength = f.clen := by
+  unfold typed
+  simp only []
+  split
+  · split
+    · split
+      · split
+        · rfl
+        · rw [splitFilename_clen]
+      · rw [applyArea_clen]; split
+        · rfl
+        · rw [splitFilename_clen]
+    · rw [foldl_applyExt_clen]; split
+      · rfl
+      · rw [splitFilename_clen]
+  · rw [foldl_applyExt_clen]
 
 end LhasaV.Props.C05
